@@ -374,3 +374,8 @@ N.append({'id': 'cxx-comparison-operands-swapped', 'generator': 'swap-eq', 'file
 # cap).  The first run raised alarms in K4 (loop direction read off `i >= 0`), I3, I4 and T3; they
 # now read inequalities through `relation()` (small, big, strict), whichever way they are spelt.
 N.append({'id': 'cxx-inequalities-mirrored', 'generator': 'swap-rel', 'file': None, 'edits': []})
+
+# Python: `x == 1` written `1 == x`, `x is None` written `None is x`, `a < b` written `b > a`
+# (63 sites).  The first run raised alarms in T6, F6, G4, K7py and an analysis error in K6py; the
+# Python front end now hands the rules a tree with the constant operand on the right.
+N.append({'id': 'py-comparisons-mirrored', 'generator': 'py-swap-cmp', 'file': None, 'edits': []})
